@@ -283,3 +283,74 @@ Lemma list_plan_cases :
   list_plan_of 1 false = UseMLSD /\ list_plan_of 1 true = RaiseStatus /\
   (forall b, list_plan_of 2 b = UseLIST).
 Proof. repeat split. Qed.
+
+(* ---------------- the workers under backend faults ---------------- *)
+Lemma worker_lines_ok faulty line_of dir :
+  existsb faulty dir = false -> worker_lines faulty line_of dir = Some (flat_map line_of dir).
+Proof.
+  induction dir as [|e rest IH]; intro H; [reflexivity|]. cbn [existsb] in H.
+  apply orb_false_iff in H as [He Hr]. cbn [worker_lines flat_map]. rewrite He, (IH Hr). reflexivity.
+Qed.
+
+Lemma worker_lines_fault faulty line_of dir :
+  existsb faulty dir = true -> worker_lines faulty line_of dir = None.
+Proof.
+  induction dir as [|e rest IH]; intro H; [discriminate|]. cbn [existsb] in H. cbn [worker_lines].
+  destruct (faulty e); [reflexivity|]. cbn [orb] in H. rewrite (IH H). reflexivity.
+Qed.
+
+Lemma flat_map_single {A B} (f : A -> B) l : flat_map (fun x => [f x]) l = map f l.
+Proof. induction l as [|x l IH]; [reflexivity|]. cbn [flat_map map app]. rewrite IH. reflexivity. Qed.
+
+(* a listing that completes is complete; a fault at ANY entry fails the command (no 2xx listing
+   ever hides an entry whose stat failed) *)
+Theorem mlsd_complete_or_fails faulty dir :
+  Forall (fun e => entry_name_ok (de_name e)) dir ->
+  (existsb faulty dir = true -> mlsd_worker faulty dir = None) /\
+  (forall ls, mlsd_worker faulty dir = Some ls ->
+     existsb faulty dir = false /\
+     client_collect parse_mlsx_line entry_has_type ls
+     = Ok (map (fun e => (de_name e, entry_of (mlsx_facts (de_stat e) (de_kind e)))) dir)).
+Proof.
+  intro F. split; [apply worker_lines_fault|]. intros ls H.
+  destruct (existsb faulty dir) eqn:E.
+  - unfold mlsd_worker in H. rewrite (worker_lines_fault _ _ _ E) in H. discriminate.
+  - split; [reflexivity|]. unfold mlsd_worker in H. rewrite (worker_lines_ok _ _ _ E), flat_map_single in H.
+    injection H as <-. exact (client_mlsd_collect dir F).
+Qed.
+
+Theorem list_complete_or_fails half two off now now' others faulty dir :
+  consts_ok half two = true ->
+  now <= now' <= now + HOUR -> yr (client_now off now') <= 9999 ->
+  Forall (list_item_ok off now) (present dir) ->
+  (existsb faulty dir = true -> list_worker half off now faulty dir = None) /\
+  (forall ls, list_worker half off now faulty dir = Some ls ->
+     existsb faulty dir = false /\
+     client_collect (parse_list_line (parse_list_line_unix half two (client_now off now')) others) (fun _ => true) ls
+     = Ok (map (fun r => (fst r, list_info (snd r) (expected_modify off now (snd r)))) (present dir))).
+Proof.
+  intros C Hn HY F. split; [apply worker_lines_fault|]. intros ls H.
+  destruct (existsb faulty dir) eqn:E.
+  - unfold list_worker in H. rewrite (worker_lines_fault _ _ _ E) in H. discriminate.
+  - split; [reflexivity|]. unfold list_worker in H. rewrite (worker_lines_ok _ _ _ E) in H.
+    injection H as <-. exact (client_list_exact half two off now now' others dir C Hn HY F).
+Qed.
+
+(* ---------------- zones whose offset differs between mtime and "now" (DST) ---------------- *)
+(* the recent-date theorem with one offset for the file's instant and another for the client's
+   clock: it is the fixed-offset theorem with the client's clock shifted by the difference *)
+Lemma client_now_shift off_m off_n now' : client_now off_n now' = client_now off_m (now' + (off_n - off_m)).
+Proof. unfold client_now. f_equal. lia. Qed.
+
+Theorem ls_date_recent_two_offsets half two off_m off_n mtime now now' :
+  consts_ok half two = true ->
+  now <= now' + (off_n - off_m) <= now + HOUR ->
+  now - half_year_spec + DAY < mtime <= now ->
+  let tm := civil_of_epoch (mtime + off_m) in
+  1000 <= yr tm -> yr (client_now off_n now') <= 9999 ->
+  parse_ls_date_dt half two (build_list_mtime half off_m mtime now) (client_now off_n now')
+  = Some (minute_floor tm).
+Proof.
+  intros C Hn Hm tm HY HY'. rewrite (client_now_shift off_m off_n now') in *.
+  exact (ls_date_recent half two off_m mtime now (now' + (off_n - off_m)) C Hn Hm HY HY').
+Qed.
